@@ -51,8 +51,8 @@ theorem query_simX (cfg : Cfg) (hcfg : cfg.engine = false) (gr : Grammar)
       (solve cfg.uf (programOf gr) n (b.tr l r k).1 ⟨[], k + b.nhid⟩)
       (post cfg.uf r (den cfg gr n true b ⟨[], k⟩ l)) := by
   have hrel : BodyRel (World.initX k b.nhid).Eq b b := by
-    have := rename_bodyRel false (W := World.initX k b.nhid) (oS := 0) (oD := 0)
-      (fun v hv => World.initX_var k b.nhid v hv) b hb hbk
+    have := rename_bodyRel (W := World.initX k b.nhid) (oS := 0) (oD := 0)
+      (fun v hv => World.initX_var k b.nhid v hv) b hbk
     rwa [rename_zero] at this
   exact level_simX cfg hcfg gr hgr n b hb b (World.initX k b.nhid) hrel true l l r r k
     ⟨World.initX_good k b.nhid, World.initX_eq k b.nhid l hlk, World.initX_eq k b.nhid r hrk,
